@@ -982,6 +982,38 @@ def c04_frozen_migration(name, K):
                     bad.append('integrates although a frozen population has migration: %s' % (s_.model() if s_.check() == z3.sat else 'undecided'))
         out.append(struct(oid + '.iff', not bad and n_raise > 0 and n_ok > 0, 'ValueError exactly when a frozen population has a non-zero migration rate, before any work (%d refusing / %d integrating paths)' % (n_raise, n_ok)
                           if not bad else '; '.join(str(b)[:200] for b in bad[:3]), fn, finding_key='C04/frozen-migration/%s' % name))
+        # rates given as functions of time: a function is not the constant 0, so a frozen population with such a rate is refused as well
+        # (one frozen population and one function-valued rate touching it at a time, everything else 0 / not frozen)
+        bad2, ncase = [], 0
+        for k in range(1, K + 1):
+            for (i, j) in ms:
+                if k not in (i, j):
+                    continue
+                ncase += 1
+                kw2 = dict(initial_t=t0)
+                for q in range(1, K + 1):
+                    kw2['frozen%d' % q] = (q == k)
+                mf = uf('m%d%d_of_t' % (i, j))
+                kw2['m%d%d' % (i, j)] = PyFn(lambda t, _f=mf: _f(to_real(t)), 'm%d%d_f' % (i, j))
+
+                def thunk2(e, kw2=kw2):
+                    del work[:]
+                    try:
+                        e.apply(f.node, None, f.mod, [phi, Tm('xx'), T], dict(kw2), name)
+                        return ('return', list(work))
+                    except PyRaise as pe:
+                        return ('raise:%s:%s' % (pe.kind if hasattr(pe, 'kind') else '', str(pe)), list(work))
+                for p in ex.explore(thunk2, base_pc=[T > t0, t0 >= 0]):
+                    if p.outcome != 'return':
+                        bad2.append('frozen%d, m%d%d(t): unexpected outcome %r' % (k, i, j, p))
+                        continue
+                    what, wk = p.value
+                    if not (what.startswith('raise') and 'frozen' in what.lower()):
+                        bad2.append('frozen%d with m%d%d a function of time: %s' % (k, i, j, 'integrates' if what == 'return' else what[:60]))
+                    elif wk:
+                        bad2.append('frozen%d, m%d%d(t): work done before the refusal: %s' % (k, i, j, wk[:3]))
+        out.append(struct(oid + '.function-valued-rate', not bad2 and ncase > 0, 'a frozen population with a rate given as a function of time is refused before any work (%d cases)' % ncase
+                          if not bad2 else '; '.join(bad2[:3])[:400], fn, finding_key='C04/frozen-migration/%s' % name))
         return out
     return go()
 
